@@ -141,6 +141,63 @@ theorem cheng_denominator_single (N : Nat) (hN : 1 ≤ N) :
   simp only [List.map_replicate, List.sum_replicate, nsmul_eq_mul]
   field_simp
 
+/-- **A single azimuth reduces to the traditional standard deviation**: with weights `1/N` the Cheng estimator
+(`1 − Σw²` denominator) is the `N − 1` sample standard deviation, for both distributions. -/
+theorem single_azimuth_std (d : Dist) (vals : List ℝ) (h2 : 2 ≤ vals.length) :
+    nanstdW d (vals.map some) (some (List.replicate vals.length (1 / (vals.length : ℝ)))) .cheng =
+      nanstdW d (vals.map some) none .nist := by
+  have hne : vals ≠ [] := by intro h; subst h; simp at h2
+  have hN : (vals.length : ℝ) ≠ 0 := by
+    have : vals.length ≠ 0 := by omega
+    exact_mod_cast this
+  have hN2 : (2 : ℝ) ≤ (vals.length : ℝ) := by exact_mod_cast h2
+  rw [nanstdW_unweighted d _ (by rw [somes_map_some]; exact h2), somes_map_some]
+  unfold nanstdW
+  rw [single_azimuth_mean d vals hne, nanmeanW_unweighted, somes_map_some]
+  have hl : vals.length ≠ 0 := by omega
+  simp only [hl, if_false]
+  have tail : ∀ (mean : ℝ), mean = ((vals.map d.pre).sum / (vals.length : ℝ)) →
+      (match Denom.cheng, ((someWeights (List.replicate vals.length (1 / (vals.length : ℝ)))).filterMap id).length with
+        | Denom.nist, 0 => none
+        | _, _ => Option.map Transc.sqrt (divO
+            (nansumProd ((vals.map some).map (fun v => v.map d.pre)) (someWeights (List.replicate vals.length (1 / (vals.length : ℝ))))
+              (fun v w => w * ((v - mean) * (v - mean))))
+            ((Arith.ofNat 1 : ℝ) - sumA (((someWeights (List.replicate vals.length (1 / (vals.length : ℝ)))).filterMap id).map (fun w => w * w)))))
+      = some (Real.sqrt (((vals.map d.pre).map (fun x => (x - (vals.map d.pre).sum / ((vals.map d.pre).length : ℝ)) ^ 2)).sum
+          / (((vals.map d.pre).length : ℝ) - 1))) := by
+    intro mean hmean
+    have e1 : (vals.map some).map (fun v => v.map d.pre) = (vals.map d.pre).map some := by
+      rw [List.map_map, List.map_map]; rfl
+    have e2 : (someWeights (List.replicate vals.length (1 / (vals.length : ℝ)))).filterMap id
+        = List.replicate vals.length (1 / (vals.length : ℝ)) := by
+      unfold someWeights
+      induction vals.length with
+      | zero => rfl
+      | succ k ih => simp [List.replicate_succ, ih]
+    rw [e1, nansumProd_explicit, e2, sumA_real]
+    have hlen : vals.length = (vals.map d.pre).length := by simp
+    rw [hlen, zip_replicate_map (vals.map d.pre) _ (fun v w => w * ((v - mean) * (v - mean)))]
+    simp only [List.length_map, ofNat_real, Nat.cast_one, divO_real]
+    have hden := cheng_denominator_single vals.length (by omega)
+    rw [hden]
+    have hd0 : ((vals.length : ℝ) - 1) / (vals.length : ℝ) ≠ 0 := by
+      apply div_ne_zero _ hN; linarith
+    rw [if_neg hd0]
+    simp only [Option.map_some, sqrt_real, Option.some.injEq]
+    congr 1
+    rw [hmean]
+    have hs : ∀ (l : List ℝ) (c m : ℝ), (l.map (fun v => c * ((v - m) * (v - m)))).sum = c * (l.map (fun x => (x - m) ^ 2)).sum := by
+      intro l c m; induction l with
+      | nil => simp
+      | cons a t ih => simp only [List.map_cons, List.sum_cons, ih]; ring
+    rw [hs]
+    field_simp
+  cases d
+  · simp only [Dist.postMean]
+    exact tail _ rfl
+  · simp only [Dist.postMean, log_real, exp_real, Real.log_exp]
+    exact tail _ rfl
+
 /-! ### mean of means -/
 
 /-- the Cheng weights laid out per azimuth: azimuth `g` with `|g|` accepted windows gets `|g|` copies of `1/(naz·|g|)` -/
